@@ -26,7 +26,10 @@ inductive XNode where
 /-- `pctx->prefix` / `pctx->ns`, innermost (last added) first; `none` = default namespace -/
 abbrev NsStack := List (Option Bytes × Bytes)
 
-def bs (s : String) : Bytes := s.toUTF8.toList
+def sXmlns : Bytes := [32, 120, 109, 108, 110, 115]   -- " xmlns"
+def sEqQ : Bytes := [61, 34]                           -- "=\""
+def sSlashGt : Bytes := [47, 62]                       -- "/>"
+def sLtSlash : Bytes := [60, 47]                       -- "</"
 
 /-- the innermost default-namespace entry: the search of `xml_print_ns(…, NULL, 0)` stops at the first entry without prefix -/
 def findDefault : NsStack → Option Bytes
@@ -43,7 +46,7 @@ def findPrefix (p : Bytes) : NsStack → Option Bytes
 
 /-- the value of an `xmlns…="…"` attribute is written as an attribute value (since the `fix:` for F62) -/
 def nsDecl (pfx : Option Bytes) (ns : Bytes) : Bytes :=
-  bs " xmlns" ++ (match pfx with | some p => 58 :: p | none => []) ++ bs "=\"" ++ XmlText.dumpText true ns ++ [34]
+  sXmlns ++ (match pfx with | some p => 58 :: p | none => []) ++ sEqQ ++ XmlText.dumpText true ns ++ [34]
 
 def printDefaultNs (st : NsStack) (ns : Bytes) : Bytes × NsStack :=
   if findDefault st = some ns then ([], st) else (nsDecl none ns, (none, ns) :: st)
@@ -56,7 +59,7 @@ def printMetas : NsStack → List MetaA → Bytes × NsStack
   | st, [] => ([], st)
   | st, m :: ms =>
     let (d, st1) := printPrefixNs st m.ns m.pfx
-    let a := d ++ [32] ++ m.pfx ++ [58] ++ m.name ++ bs "=\"" ++ XmlText.dumpText true m.value ++ [34]
+    let a := d ++ [32] ++ m.pfx ++ [58] ++ m.name ++ sEqQ ++ XmlText.dumpText true m.value ++ [34]
     let (r, st2) := printMetas st1 ms
     (a ++ r, st2)
 
@@ -71,10 +74,10 @@ mutual
 def printNode (st : NsStack) : XNode → Bytes
   | .term ns name metas value =>
     let (o, _) := printOpen st ns name metas
-    if value.isEmpty then o ++ bs "/>" else o ++ [62] ++ XmlText.dumpText false value ++ bs "</" ++ name ++ [62]
+    if value.isEmpty then o ++ sSlashGt else o ++ [62] ++ XmlText.dumpText false value ++ sLtSlash ++ name ++ [62]
   | .inner ns name metas kids =>
     let (o, st') := printOpen st ns name metas
-    if kids.isEmpty then o ++ bs "/>" else o ++ [62] ++ printList st' kids ++ bs "</" ++ name ++ [62]
+    if kids.isEmpty then o ++ sSlashGt else o ++ [62] ++ printList st' kids ++ sLtSlash ++ name ++ [62]
 def printList (st : NsStack) : List XNode → Bytes
   | [] => []
   | n :: r => printNode st n ++ printList st r
